@@ -17,14 +17,14 @@ for id in "$@"; do
   git -C $wt checkout -q -- . ; git -C $wt clean -fdq
   echo "== $id"; cat $log
   if grep -q "demo_clean_rc=0" $log && grep -q "apply=ok" $log && grep -q "demo_patched_rc=1" $log && tail -1 $log | grep -q "passed" && ! tail -1 $log | grep -q "failed"; then
-    d=/verif/seeded/$id-3; mkdir -p $d
+    d=/verif/seeded/$id-${ROUND:-3}; mkdir -p $d
     cp $out/patch$n.diff $d/patch.diff; cp $out/demo$n.py $d/demo.py
     /venv/bin/python - "$id" "$out" "$d" <<'PY'
 import json,sys
 id,out,d=sys.argv[1:]
 try: notes=json.load(open(out+'/notes1.json'))
 except Exception as e: notes={"property":id,"breaks":"(notes unreadable: %s)"%e}
-notes["author"]="independent sub-agent given only the property text and a scratch worktree (round 3, on the repaired tree)"
+notes["author"]="independent sub-agent given only the property text and a scratch worktree (later round, on the repaired tree)"
 notes["confirmed_by_coordinator"]={"how":"tools/confirm_r3.sh: demo on clean worktree, git apply, demo on patched tree, full pytest suite on patched tree","result":open(out+'/confirm.txt').read().split('\n')}
 json.dump(notes,open(d+'/meta.json','w'),indent=1)
 PY
